@@ -15,7 +15,8 @@ package internals
 
 //@ func NewExecCtx(errs, fmter)
 //@   fresh
-//@   modifies nothing
+//@   modifies srctag
+//@   ghost_update srctag := nil
 //@   ensures[C07,C11] fmter_set: result.Fmter == fmter
 //@   ensures[C07] errors_set: result.Errors == errs
 //@   ensures[C07] m_reset: result.m == nil
@@ -97,20 +98,42 @@ package internals
 //@ spec clean(c) = !c.CanCatch && !c.Exit
 // Footprint of recording an issue in the execution x: the ghost log, the container's representation and the
 // message of issues (set by formatters).
-//@ spec recregions() = locs(anyelems(Ptr), mapsof(ZogIssueMap), anyfield(ZogIssue, Message))
-//@ spec recfp(x) = locs(L(x.Errors), when(istype(x.Errors, *ErrsList), x.Errors.(*ErrsList).List), when(istype(x.Errors, *ErrsMap), x.Errors.(*ErrsMap).M), anyelems(Ptr), mapsof(ZogIssueMap), anyfield(ZogIssue, Message))
+// srctag = the source tag (json / form / query / env, or nil) of the provider the running execution reads from: set by
+// the provider factory the execution invokes, nil for plain Go data.
+//@ ghost srctag Ptr
+//@ spec recregions() = locs(anyelems(Ptr), mapsof(ZogIssueMap), anyfield(ZogIssue, Message), srctag)
+//@ spec recfp(x) = locs(L(x.Errors), when(istype(x.Errors, *ErrsList), x.Errors.(*ErrsList).List), when(istype(x.Errors, *ErrsMap), x.Errors.(*ErrsMap).M), anyelems(Ptr), mapsof(ZogIssueMap), anyfield(ZogIssue, Message), srctag)
 
-// Abstract rendered path of a PathBuilder (ghost sequence; see PathBuilder contracts).
+// Abstract path of a PathBuilder: the sequence of segments pushed after the root (ghost PSEQ). PathSeq is the theory
+// of finite string sequences built by ppush; prender is THE documented rendering: segments joined by '.', except that
+// no '.' is written after an empty segment (the root) or before a segment that starts with '[' (a slice position).
 //@ smt (declare-sort PathSeq 0)
 //@ specfun ppush(PathSeq, String) PathSeq
 //@ specfun ppop(PathSeq) PathSeq
 //@ specfun prender(PathSeq) String
-//@ smt (assert (forall ((s PathSeq) (x String)) (! (= (zz_ppop (zz_ppush s x)) s) :pattern ((zz_ppush s x)))))
 //@ specfun pempty() PathSeq
+//@ specfun plen(PathSeq) Int
+//@ specfun pnth(PathSeq, Int) String
+//@ specfun ptake(PathSeq, Int) PathSeq
+//@ specfun plast(PathSeq) String
+//@ smt (assert (forall ((s PathSeq) (x String)) (! (= (zz_ppop (zz_ppush s x)) s) :pattern ((zz_ppush s x)))))
 //@ smt (assert (= (zz_prender zz_pempty) ""))
+//@ smt (assert (= (zz_plen zz_pempty) 0))
+//@ smt (assert (= (zz_plast zz_pempty) ""))
+//@ smt (assert (forall ((s PathSeq)) (! (>= (zz_plen s) 0) :pattern ((zz_plen s)))))
+//@ smt (assert (forall ((s PathSeq) (x String)) (! (and (= (zz_plen (zz_ppush s x)) (+ (zz_plen s) 1)) (= (zz_plast (zz_ppush s x)) x) (= (zz_pnth (zz_ppush s x) (zz_plen s)) x)) :pattern ((zz_ppush s x)))))
+//@ smt (assert (forall ((s PathSeq) (x String) (i Int)) (! (=> (not (= i (zz_plen s))) (= (zz_pnth (zz_ppush s x) i) (zz_pnth s i))) :pattern ((zz_pnth (zz_ppush s x) i)))))
+//@ smt (assert (forall ((s PathSeq) (x String)) (! (= (zz_prender (zz_ppush s x)) (str.++ (zz_prender s) (ite (and (not (= (zz_plast s) "")) (not (= (str.to_code (str.at x 0)) 91))) "." "") x)) :pattern ((zz_ppush s x)))))
+//@ smt (assert (forall ((s PathSeq)) (! (= (zz_ptake s 0) zz_pempty) :pattern ((zz_ptake s 0)))))
+//@ smt (assert (forall ((s PathSeq)) (! (= (zz_ptake s (zz_plen s)) s) :pattern ((zz_plen s)))))
+//@ smt (assert (forall ((s PathSeq) (n Int)) (! (=> (and (< 0 n) (<= n (zz_plen s))) (= (zz_plast (zz_ptake s n)) (zz_pnth s (- n 1)))) :pattern ((zz_plast (zz_ptake s n))))))
+//@ smt (assert (forall ((s PathSeq)) (! (=> (>= (zz_plen s) 1) (and (= (zz_plen (zz_ppop s)) (- (zz_plen s) 1)) (= s (zz_ppush (zz_ppop s) (zz_pnth s (- (zz_plen s) 1)))))) :pattern ((zz_ppop s)))))
+//@ axiom ptake_step(s PathSeq, n Int): (=> (and (<= 0 n) (< n (zz_plen s))) (= (zz_ptake s (+ n 1)) (zz_ppush (zz_ptake s n) (zz_pnth s n))))
 //@ ghost PSEQ(Ptr) PathSeq
-// Concrete shape of a path builder between balanced Push/Pop pairs: at least the root segment, which is "".
-//@ spec pathwf(p) = p != nil && len(*p) >= 1 && (*p)[0] == "" && IARR(arrbase(*p))
+// Concrete shape of a path builder between balanced Push/Pop pairs: the root segment "" followed by exactly the
+// segments of PSEQ(p) (pathrep: the representation invariant that makes String() = prender(PSEQ)).
+//@ spec pathrep(p) = plen(PSEQ(p)) == len(*p) - 1 && forall(i, 1, len(*p), (*p)[i] == pnth(PSEQ(p), i-1))
+//@ spec pathwf(p) = p != nil && len(*p) >= 1 && (*p)[0] == "" && IARR(arrbase(*p)) && pathrep(p)
 
 // ---- function-type contracts (assumed for user callbacks, proved for zog's own closures)
 
@@ -182,11 +205,21 @@ package internals
 //@   pure
 //@   ensures[C02] result == (e.List == nil)
 
+// The issue map: every issue is appended to the list under its own path ("$root" for the empty path); "$first"
+// holds exactly the first issue ever added and is never touched again; no other key changes.
+//@ spec mapkey(p) = ite(p == "", "$root", p)
 //@ func (*ErrsMap).Add(s, p, err)
 //@   implements iface ZogIssues.Add
 //@   requires s != nil
 //@   modifies s.M, anyelems(Ptr), mapsof(ZogIssueMap), L(box(s))
 //@   ensures[C02] nonnil: s.M != nil
+//@   ensures[C10] filed_under_its_path: has(s.M, mapkey(p)) && len(s.M[mapkey(p)]) >= 1 && s.M[mapkey(p)][len(s.M[mapkey(p)])-1] == err
+//@   ensures[C10] appended_to_its_key: old(s.M) != nil && mapkey(p) != "$first" ==> len(s.M[mapkey(p)]) == old(ite(has(s.M, mapkey(p)), len(s.M[mapkey(p)]), 0)) + 1
+//@   ensures[C10] earlier_issues_of_the_key_kept: old(s.M) != nil && mapkey(p) != "$first" && old(has(s.M, mapkey(p))) ==> forall(i, 0, old(len(s.M[mapkey(p)])), s.M[mapkey(p)][i] == old(s.M[mapkey(p)][i]))
+//@   ensures[C10] first_is_the_first_issue: old(s.M) == nil && mapkey(p) != "$first" ==> has(s.M, "$first") && len(s.M["$first"]) == 1 && s.M["$first"][0] == err && len(s.M[mapkey(p)]) == 1
+//@   ensures[C10] first_never_changes_later: old(s.M) != nil && mapkey(p) != "$first" ==> s.M == old(s.M) && has(s.M, "$first") == old(has(s.M, "$first")) && s.M["$first"] == old(s.M["$first"])
+//@   ensures[C10] other_keys_untouched: old(s.M) != nil ==> forall(k, String, k != mapkey(p) ==> has(s.M, k) == old(has(s.M, k)) && s.M[k] == old(s.M[k]))
+//@   ensures[C10] first_map_has_two_keys: old(s.M) == nil ==> forall(k, String, has(s.M, k) == (k == "$first" || k == mapkey(p)))
 
 //@ func (*ErrsMap).IsEmpty(s)
 //@   implements iface ZogIssues.IsEmpty
@@ -285,10 +318,14 @@ package internals
 //@   ensures[C10] PSEQ(result) == pempty()
 
 //@ func (*PathBuilder).String(p)
-//@   trusted
-//@   requires p != nil
+//@   requires[C10,C06] well_formed_path: pathwf(p)
 //@   pure
-//@   ensures result == prender(PSEQ(p))
+//@   ensures[C10] renders_the_pushed_segments: result == prender(PSEQ(p))
+//@   ensures[C10] path_untouched: pathkept(p) && PSEQ(p) == old(PSEQ(p))
+//@   loop rangeindex.loop#1
+//@     use ptake_step(PSEQ(p), zz_i - 1)
+//@     invariant sb != nil
+//@     invariant[C10] rendered_so_far: SB(sb) == ite(zz_i == 0, "", prender(ptake(PSEQ(p), zz_i - 1)))
 
 // Push appends one segment; Pop removes the last one. Both keep every earlier segment (pathkeep), which is
 // what lets a node prove that the path it was given is intact after its children ran.
@@ -296,6 +333,7 @@ package internals
 //@ spec pathkept(p) = len(*p) == old(len(*p)) && IARR(arrbase(*p)) && forall(i, 0, len(*p), (*p)[i] == old((*p)[i]))
 //@ func (*PathBuilder).Push(p, path)
 //@   requires p != nil && path != nil
+//@   requires[C10] abstraction_holds: pathrep(p)
 //@   modifies all(p), elems(*p), PSEQ(p)
 //@   ghost_update PSEQ(p) := ppush(PSEQ(p), *path)
 //@   ghost_update IARR(arrbase(*p)) := true
@@ -303,14 +341,17 @@ package internals
 //@   ensures IARR(arrbase(*p))
 //@   ensures[C10] appended: len(*p) == old(len(*p)) + 1 && (*p)[len(*p)-1] == *path
 //@   ensures[C10] prefix_kept: forall(i, 0, old(len(*p)), (*p)[i] == old((*p)[i]))
+//@   ensures[C10] abstraction_kept: pathrep(p)
 
 //@ func (*PathBuilder).Pop(p)
 //@   requires p != nil
+//@   requires[C10] balanced_with_a_push: pathrep(p) && len(*p) >= 2
 //@   modifies all(p), PSEQ(p)
 //@   ghost_update PSEQ(p) := ppop(PSEQ(p))
 //@   ensures[C10] removed: old(len(*p)) > 0 ==> len(*p) == old(len(*p)) - 1
 //@   ensures arrbase(*p) == old(arrbase(*p))
 //@   ensures[C10] prefix_kept: forall(i, 0, len(*p), (*p)[i] == old((*p)[i]))
+//@   ensures[C10] abstraction_kept: pathrep(p)
 
 // ---- tests
 
@@ -419,12 +460,32 @@ package internals
 //@ specfun dpkey(Iface, reflect.StructField, String) String
 // wfdata: the value is plain data or a provider factory that was not consumed yet
 //@ spec wfdata(d) = istype(d, DpFactory) ==> (d.(DpFactory) != nil && !dpinvoked(d.(DpFactory)))
+//@ specfun dptag(Iface) Ptr as *string
 //@ iface DataProvider.GetByField(self, field, fallback)
 //@   requires self != nil
 //@   pure
-//@   ensures[C14] result1 == dpkey(self, field, fallback)
-//@   ensures[C14] result0 == dpval(self, result1)
+//@   names result1 == dpkey(self, field, fallback)
+//@   ensures[C10,C14] key_by_tag_priority: result1 == fieldkey(field, fallback, dptag(self))
+//@   names result0 == dpval(self, result1)
 //@   ensures wfdata(result0)
+
+// Which key names a struct field: the provider's own tag (json/form/query/env) if the field has it, else the zog tag,
+// else the schema key (C10, C14). A provider without a source tag (plain maps, Validate) starts at the zog tag.
+//@ spec fieldkey(field, fallback, tag) = ite(tag != nil && taghas(field.Tag, *tag), taglookup(field.Tag, *tag), ite(taghas(field.Tag, "zog"), taglookup(field.Tag, "zog"), fallback))
+//@ func GetKeyFromField(field, fallback, tag)
+//@   pure
+//@   ensures[C10,C14] source_tag_then_zog_tag_then_schema_key: result == fieldkey(field, fallback, tag)
+//@ func (*MapDataProvider).GetByField(m, field, fallback)
+//@   implements iface DataProvider.GetByField
+//@   unfold tag_named: dptag(box(m)) == m.tag
+//@   unfold receiver_not_typed_nil: m != nil
+//@   pure
+//@   ensures[C10,C14] key_by_tag_priority: result1 == fieldkey(field, fallback, m.tag)
+//@   ensures[C14] value_under_that_key: m.M != nil && has(m.M, result1) ==> result0 == box(m.M[result1])
+//@ func (*EmptyDataProvider).GetByField(e, field, fallback)
+//@   implements iface DataProvider.GetByField
+//@   pure
+//@   ensures[C10,C14] absent_under_schema_key: result0 == nil && result1 == fallback
 
 //@ iface DataProvider.Get(self, key)
 //@   requires self != nil
@@ -435,14 +496,17 @@ package internals
 //@ ghost dpinvoked(Fn) Bool
 //@ functype DpFactory(self)
 //@   requires[C15] not_invoked_twice: !dpinvoked(self)
-//@   modifies dpinvoked(self)
+//@   modifies dpinvoked(self), srctag
 //@   ghost_update dpinvoked(self) := true
+//@   ghost_update srctag := dptag(box(result0))
 //@   ensures result1 != nil ==> result1.Code != ""
 //@   ensures !istype(result0, DpFactory)
 
 //@ func TryNewAnyDataProvider(val)
 //@   trusted
 //@   pure
+//@   ensures[C10,C14] plain_data_gets_no_source_tag: !implements(val, DataProvider) ==> dptag(result0) == nil
+//@   ensures[C14] providers_pass_through: implements(val, DataProvider) ==> result0 == val && result1 == nil
 //@   ensures[C06] result1 == nil ==> result0 != nil
 //@   ensures result1 != nil ==> true
 
